@@ -377,7 +377,7 @@ class MergeData(Contract):
     loops = {1: LoopSpec(_md_inv, _md_havoc, "for-input")}
     has_native = True
     max_paths = 20000
-    bounded_scope = "2-3 point clouds / curves with 0-2 float data each (names shared or not, entity types shared between differently named data or not, vertex or cell association, inputs without data in any position; about half of the cases on a file, re-opened and compared again); deductive part: any number of inputs, each with 0-2 children, label table abstracted to 0-1 earlier label"
+    bounded_scope = "one input holding the same data name and type twice (first set with 0-4 no-data entries, float and integer); 2-3 point clouds / curves with 0-2 float data each (names shared or not, entity types shared between differently named data or not, vertex or cell association, inputs without data in any position; about half of the cases on a file, re-opened and compared again); deductive part: any number of inputs, each with 0-2 children, label table abstracted to 0-1 earlier label"
 
     def setup(self, ctx):
         ctx.env["ndv"] = sym("nan_value", "real")
@@ -399,6 +399,11 @@ class MergeData(Contract):
         sub = [0, 1, 3, 4]
         for combo in itertools.product(sub, repeat=3):
             yield {"inputs": [opts[i] for i in combo], "nv": [2, 3, 2]}
+        # the same name (and type) twice on one input: both sets are data of that input and both are kept
+        for gaps in ([], [1], [0, 3], [0, 1, 2, 3]):
+            for kind in ("float", "integer"):
+                for pos in (0, 1):
+                    yield {"dup": True, "gaps": gaps, "kind": kind, "pos": pos}
 
     def native_check(self, case):
         from geoh5py.objects import Curve
@@ -409,6 +414,8 @@ class MergeData(Contract):
         import shutil
         import tempfile
 
+        if case.get("dup"):
+            return self._native_dup(case)
         reopen = sum(len(x) for x in case["inputs"]) % 2 == 1 or len(case["inputs"]) == 3
         tmp = tempfile.mkdtemp() if reopen else None
         try:
@@ -416,6 +423,50 @@ class MergeData(Contract):
         finally:
             if tmp:
                 shutil.rmtree(tmp, ignore_errors=True)
+
+    def _native_dup(self, case):
+        import warnings
+
+        from geoh5py.objects import Points
+        from geoh5py.shared.merging import PointsMerger
+        from geoh5py.workspace import Workspace
+
+        with Workspace() as ws, warnings.catch_warnings():
+            warnings.simplefilter("ignore")
+            objs = [Points.create(ws, vertices=np.c_[np.arange(4.0) + 10 * k, np.zeros(4), np.zeros(4)], name=f"in{k}") for k in range(2)]
+            twice = objs[case["pos"]]
+            if case["kind"] == "float":
+                first = np.array([1.0, 2.0, 3.0, 4.0])
+                first[case["gaps"]] = np.nan
+                second = np.array([11.0, 12.0, 13.0, 14.0])
+            else:
+                first = np.array([1, 2, 3, 4], dtype="int32")
+                first[case["gaps"]] = -2147483648  # the integer no-data code
+                second = np.array([11, 12, 13, 14], dtype="int32")
+            d1 = twice.add_data({"assay": {"values": first}})
+            twice.add_data({"assay": {"values": second, "entity_type": d1.entity_type}})
+            other = objs[1 - case["pos"]]
+            other.add_data({"assay": {"values": (np.arange(4) + 21).astype(first.dtype), "entity_type": d1.entity_type}})
+            merged = PointsMerger.merge_objects(ws, objs)
+            lo = 4 * case["pos"]
+            blocks = [np.asarray(ch.values, dtype=float)[lo:lo + 4] for ch in merged.children if hasattr(ch, "association") and getattr(ch, "values", None) is not None and len(ch.values) == 8]
+            ndv = {np.nan} if case["kind"] == "float" else {-2147483648.0}
+
+            def kept(vals):
+                want = np.asarray(vals, dtype=float)
+                gap = np.isnan(want) | (want == -2147483648.0)
+                if gap.all():
+                    return True  # a data set without a single value has nothing to preserve
+                for b in blocks:
+                    bgap = np.isnan(b) | (b == -2147483648.0)
+                    if np.array_equal(gap, bgap) and np.allclose(b[~gap], want[~gap]):
+                        return True
+                return False
+
+            for label, vals in (("first", first), ("second", second)):
+                if not kept(vals):
+                    return f"input 'in{case['pos']}' holds two data named 'assay'; the {label} one {np.asarray(vals, dtype=float).tolist()} is not among the merged data of its block {[b.tolist() for b in blocks]} ({case})"
+        return None
 
     def _native(self, case, path):
         from geoh5py.objects import Curve
